@@ -8,8 +8,10 @@ package packetmap
 //@ -- mod-2^16 order used by the code; compare must equal it
 //@ spec cmp16(a uint16, b uint16) int = a == b ? 0 : (((b - a) & 0x8000) != 0 ? 1 : -1)
 //@ -- source seqno s lies in interval e / target seqno t lies in the image of e
-//@ spec covers(e entry, s uint16) bool = cmp16(s, e.first) >= 0 && cmp16(s, e.first + e.count) < 0
-//@ spec tcovers(e entry, t uint16) bool = cmp16(t, e.first + e.delta) >= 0 && cmp16(t, e.first + e.delta + e.count) < 0
+//@ -- (true positions, in plain modular arithmetic: s is the (s - first)-th packet of the interval; the code tests this with two
+//@ --  mod-2^16 comparisons, which is the same thing only because intervals are kept short: wf below, count <= 0x4000)
+//@ spec covers(e entry, s uint16) bool = s - e.first < e.count
+//@ spec tcovers(e entry, t uint16) bool = t - (e.first + e.delta) < e.count
 //@ spec last(m *Map) entry = m.entries[m.lastEntry]
 //@
 //@ -- ghost state (specification only)
@@ -27,7 +29,10 @@ package packetmap
 //@      && (len(m.entries) > 0 ==> int(m.lastEntry) < len(m.entries))
 //@ -- I_tail: the newest interval ends exactly where the withheld packets begin
 //@ spec tail(m *Map) bool = len(m.entries) > 0 ==> last(m).first + last(m).count + (last(m).delta - m.delta) == m.next
-//@ spec wf(m *Map) bool = shape(m) && tail(m) && m.delta == 0 - m.dropped && m.pidDelta == m.droppedFrames
+//@ -- intervals are short (addMapping slides the start of an interval that would grow beyond 0x4000 packets)
+//@ spec short(m *Map) bool = (forall k int :: 0 <= k && k < len(m.entries) ==> m.entries[k].count <= 0x4000)
+//@      && (len(m.entries) > 0 ==> last(m).count <= 0x4000)
+//@ spec wf(m *Map) bool = shape(m) && tail(m) && short(m) && m.delta == 0 - m.dropped && m.pidDelta == m.droppedFrames
 //@      && (!m.begun ==> m.next == 0 && isnil(m.entries) && !m.started) && (m.started ==> m.begun)
 //@ -- the next outgoing number is the one after the newest forwarded packet
 //@ spec contiguous(m *Map) bool = m.begun ==> m.next + m.delta == m.lastOut + 1
@@ -70,13 +75,13 @@ package packetmap
 //@        && m.entries[0].first == seqno - 8192 && m.entries[0].count == 8192 && m.entries[0].delta == 0 && m.entries[0].pidDelta == 0
 //@   ensures table-kept: len(old(m.entries)) > 0 ==> same(m.entries, old(m.entries))
 //@   -- the packet just withheld is outside the newest interval (C01: never forwarded later, newest-interval part)
-//@   ensures withheld-not-mapped: result && last(m).delta != m.delta && last(m).count <= 0x4000 && last(m).delta - m.delta <= 0x4000 ==> !covers(last(m), seqno)
+//@   ensures withheld-not-mapped: result && last(m).delta != m.delta && last(m).delta - m.delta <= 0x4000 ==> !covers(last(m), seqno)
 //@
 //@ func (*Map).direct
 //@   safe
 //@   props C01 C03 C12
 //@   requires nonnil: m != nil
-//@   requires shape: shape(m)
+//@   requires shape: shape(m) && short(m)
 //@   modifies nothing
 //@   invariant loop 1 inrange: int(i) < len(m.entries)
 //@   invariant loop 1 newest-first: i == m.lastEntry || cmp16(seqno, last(m).first) < 0
@@ -94,13 +99,16 @@ package packetmap
 //@   safe
 //@   props C01 C12
 //@   requires nonnil: m != nil
-//@   requires shape: shape(m)
+//@   requires shape: shape(m) && short(m)
+//@   -- the packet is the newest one, at most 8192 ahead of the expected one, and the newest interval ends where the withheld packets begin
+//@   requires in-order: cmp16(m.next, seqno) <= 0 && seqno - m.next <= 8192 && (len(m.entries) > 0 ==> last(m).first + last(m).count + (last(m).delta - delta) == m.next)
 //@   modifies m.lastEntry, m.entries, full(m.entries)
 //@   ensures noop: len(old(m.entries)) == 0 ==> len(m.entries) == 0 && same(m.entries, old(m.entries)) && m.lastEntry == old(m.lastEntry)
 //@   ensures extend: len(old(m.entries)) > 0 && delta == old(last(m).delta) && pidDelta == old(last(m).pidDelta) ==>
 //@        same(m.entries, old(m.entries)) && m.lastEntry == old(m.lastEntry)
-//@        && last(m).first == old(last(m).first) && last(m).delta == delta && last(m).pidDelta == pidDelta
-//@        && last(m).count == seqno - old(last(m).first) + 1
+//@        && last(m).delta == delta && last(m).pidDelta == pidDelta
+//@        && last(m).first + last(m).count == seqno + 1
+//@        && (seqno - old(last(m).first) + 1 != 0 && seqno - old(last(m).first) + 1 <= 0x4000 ? last(m).first == old(last(m).first) : last(m).count == 0x4000)
 //@   ensures extend-others: len(old(m.entries)) > 0 && delta == old(last(m).delta) && pidDelta == old(last(m).pidDelta) ==>
 //@        (forall k int :: 0 <= k && k < len(m.entries) && k != int(m.lastEntry) ==> m.entries[k] == old(m.entries[k]))
 //@   ensures new-interval: len(old(m.entries)) > 0 && !(delta == old(last(m).delta) && pidDelta == old(last(m).pidDelta)) ==>
@@ -111,6 +119,8 @@ package packetmap
 //@   ensures new-interval-others: len(old(m.entries)) > 0 && !(delta == old(last(m).delta) && pidDelta == old(last(m).pidDelta)) ==>
 //@        (forall k int :: 0 <= k && k < len(old(m.entries)) && k != int(m.lastEntry) ==> m.entries[k] == old(m.entries[k]))
 //@   ensures shape: shape(m) || (len(m.entries) == 0)
+//@   -- intervals stay short: a new one starts at the expected packet or later, an extended one is slid forward
+//@   ensures short: short(m)
 //@   ensures newest-ends-at-seqno: len(m.entries) > 0 ==> last(m).first + last(m).count == seqno + 1 && last(m).delta == delta
 //@
 //@ -- case analysis of Map on the pre-state
@@ -156,7 +166,7 @@ package packetmap
 //@        && result1 == seqno + old(last(m).delta) && result2 == old(last(m).pidDelta)
 //@   ensures late-miss: !result0 ==> result1 == 0 && result2 == 0
 //@   -- C03: the newest interval records the packet just sent (so a NACK for its number finds it)
-//@   ensures newest-records: !old(pristine(m)) && old(inorder(m, seqno)) && int(last(m).count) >= 1 && int(last(m).count) <= 0x8000 ==>
+//@   ensures newest-records: !old(pristine(m)) && old(inorder(m, seqno)) ==>
 //@        covers(last(m), seqno) && tcovers(last(m), result1) && last(m).delta == old(m.delta) && last(m).pidDelta == old(m.pidDelta)
 //@
 //@ func (*Map).Reverse
